@@ -19,7 +19,7 @@ META = {
     "(explicit-state enumeration by history replay) against 'renders like the same configuration alone'",
     "text": "(i) every C12 skeleton (quick: <= 2 tags) and every gen_stmt program (<= 2 statement nodes) is printed under "
     "six delimiter sets and must render identically under all four trim/lstrip settings; (ii) every well-nested "
-    "program of <= 4 (thorough 5) whole lines (text, for/if/else/set statements, comments, two indentations) renders "
+    "program of <= 4 (thorough 5) whole lines (text, for/if/else/set statements incl. two that continue over a line break inside brackets, comments, two indentations) renders "
     "the same in block form and in line-statement / line-comment form in a trim_blocks+lstrip_blocks environment; "
     "(iii) jinja2.Template(src, **opts) equals Environment(**opts).from_string(src) over a 288-point option grid; "
     "(iv) every overlay chain of <= 3 single-option steps renders (by name through a DictLoader, i.e. with the template "
@@ -243,7 +243,9 @@ TEXT_LINES = ("a", "  b{{ x }}{{ i }}", "")
 STMTS = ("for i in [1, 2]", "endfor", "if x", "else", "endif", "set x = 2")
 INDENTS = ("", "  ")
 LINE_ALPHABET = ([("t", t) for t in TEXT_LINES] + [("s", ind, st) for st in STMTS for ind in INDENTS]
-                 + [("c", ind, "c") for ind in INDENTS])
+                 + [("c", ind, "c") for ind in INDENTS]
+                 # statements that span two lines inside open brackets (documented for line statements)
+                 + [("s", "", "for i in [1,\n  2]"), ("s", "  ", "set x = (2 +\n    0)")])
 
 
 def well_nested(lines):
@@ -746,7 +748,7 @@ def run(ctx: core.Ctx):
         "i_delimiter_sets": list(SETS),
         "i_statement_programs": {"source": "vf.gen_stmt" if G is not None else "fallback family",
                                  "profile": "mid" if q else "full", "max_nodes": 2},
-        "ii_max_lines": Lmax, "ii_line_alphabet": len(LINE_ALPHABET),
+        "ii_max_lines": Lmax, "ii_multi_line_statements": 2, "ii_line_alphabet": len(LINE_ALPHABET),
         "iii_option_points": 288, "iv_bases": len(bases), "iv_max_chain": 3,
         "v_configs": n5, "v_config_pairs": len(pairs), "v_max_history": hmax, "v_eviction_configs": EV_N,
     }
